@@ -615,7 +615,9 @@ def prove_routine_all_lanes(mod, name, arg_cells, out_cells, ret_spec, subst_ato
                                              witness=wit, constraints=[], kind='value', contract_level=True))
                     break
             for sg, d in viol:
-                res.failures.append(dict(lane=0, box={}, detail='internal call of %s: %s' % (sg.split('(')[0], d), witness=None, constraints=[], kind='pre'))
+                # the bound that could not be shown is not tied to this cell (a data-dependent guard may have refined the operand on the
+                # path that reaches the call): without a witness this is not a verdict
+                res.failures.append(dict(lane=0, box={}, detail='internal call of %s: %s' % (sg.split('(')[0], d), witness=None, constraints=[], kind='range'))
                 break
         except (Undecided, KeyError) as e:
             res.undecided.append(str(e)[:200])
